@@ -172,12 +172,13 @@ def export(module, constants, invariants, timeout=3000, sample=1, seed=1):
     r = core.tlc_ok(module, cfg, timeout=timeout)
     recs = []
     n = 0
-    for ln in r.out.splitlines():
-        if ln.startswith('"{'):
-            n += 1
-            if sample > 1 and (n + seed) % sample:
-                continue
-            recs.append(json.loads(json.loads(ln)))
+    lines = [ln for ln in r.out.splitlines() if ln.startswith('"{')]
+    lines.sort()                  # TLC's output order depends on worker scheduling: make sampling reproducible
+    for ln in lines:
+        n += 1
+        if sample > 1 and (n + seed) % sample:
+            continue
+        recs.append(json.loads(json.loads(ln)))
     return r, recs, n
 
 
